@@ -268,10 +268,30 @@ def has_ref(t):
 PRELUDE = "use serde::{Deserialize, Serialize};\nuse std::collections::{HashMap, HashSet, BTreeMap, BTreeSet};\n\n"
 
 
-def struct_src(name, fields, rename_all=None, derives="Serialize, Deserialize", attrs=(), pub=True):
+DERIVE_STYLES = ("single", "split-serde-last", "split-serde-first", "serde-only-then-others", "three-attrs", "cfg-attr-between")
+
+
+def derive_lines(derives, style="single"):
+    """the same set of derives laid out in different (equivalent) ways"""
+    if not derives:
+        return ["#[derive(Debug, Clone)]"] if style == "single" else ["#[derive(Debug)]", "#[derive(Clone)]"]
+    if style == "split-serde-last":
+        return ["#[derive(Debug, Clone)]", "#[derive(%s)]" % derives]
+    if style == "split-serde-first":
+        return ["#[derive(%s)]" % derives, "#[derive(Debug, Clone)]"]
+    if style == "serde-only-then-others":
+        return ["#[derive(%s)]" % derives, "#[allow(dead_code)]", "#[derive(Debug)]", "#[derive(Clone)]"]
+    if style == "three-attrs":
+        return ["#[derive(Debug)]", "#[derive(Clone, PartialEq)]", "#[derive(%s)]" % derives]
+    if style == "cfg-attr-between":
+        return ["#[derive(Debug, Clone)]", "#[allow(non_snake_case)]", "#[derive(%s)]" % derives]
+    return ["#[derive(Debug, Clone, %s)]" % derives]
+
+
+def struct_src(name, fields, rename_all=None, derives="Serialize, Deserialize", attrs=(), pub=True, derive_style="single"):
     """fields: list of (name, rust_type_string, [attr strings])"""
     out = []
-    out.append("#[derive(Debug, Clone, %s)]" % derives if derives else "#[derive(Debug, Clone)]")
+    out.extend(derive_lines(derives, derive_style))
     if rename_all:
         out.append('#[serde(rename_all = "%s")]' % rename_all)
     for a in attrs:
@@ -290,9 +310,9 @@ def struct_src(name, fields, rename_all=None, derives="Serialize, Deserialize", 
     return "\n".join(out) + "\n\n"
 
 
-def enum_src(name, variants, rename_all=None, derives="Serialize, Deserialize", attrs=()):
+def enum_src(name, variants, rename_all=None, derives="Serialize, Deserialize", attrs=(), derive_style="single"):
     """variants: list of (name, [attr strings])"""
-    out = ["#[derive(Debug, Clone, %s)]" % derives if derives else "#[derive(Debug, Clone)]"]
+    out = derive_lines(derives, derive_style)
     if rename_all:
         out.append('#[serde(rename_all = "%s")]' % rename_all)
     for a in attrs:
